@@ -22,6 +22,10 @@ pub struct State {
     pub parents: HashMap<u64, u64>,
     /// header address -> owning gc id (of objects allocated while enabled)
     pub owner: HashMap<usize, u64>,
+    /// A child collector was just created: the next allocation is the `Thread` that owns it
+    pub expect_thread: Option<u64>,
+    /// header address of a `Thread` object -> id of the collector of that thread's own heap
+    pub thread_obj: HashMap<usize, u64>,
 
     // ---- freed objects
     /// Do not deallocate swept objects: run their drop glue, poison the payload and keep the
@@ -40,8 +44,14 @@ pub struct State {
     pub forced: u64,
 
     // ---- tracing
-    pub trace_stack: Vec<usize>,
+    /// (header address, or 0 for the roots of a thread; heap that owns the roots of that thread)
+    pub trace_stack: Vec<(usize, Option<u64>)>,
     pub edges_checked: u64,
+    /// Visitor mode: `Gc::mark` neither sets mark bits nor stops at objects of ancestor
+    /// generations, it visits every object reachable from the roots exactly once
+    pub walk: bool,
+    pub walk_visited: HashSet<usize>,
+    pub walk_objects: u64,
 
     // ---- limits
     /// an allocation through the limit-checked path is in progress
@@ -85,6 +95,7 @@ pub fn next_gc_id() -> u64 {
             if let Some(parent) = s.pending_parent.take() {
                 if s.enabled {
                     s.parents.insert(id, parent);
+                    s.expect_thread = Some(id);
                 }
             }
         }
@@ -129,6 +140,12 @@ pub fn on_alloc(gc_id: u64, header: usize, allocated: usize, limit: usize) {
                 return;
             }
             s.owner.insert(header, gc_id);
+            if let Some(thread_gc) = s.expect_thread.take() {
+                // `RootedThread::with_global_state` replaces the global collector after it created
+                // the child collector: the heap the thread object lives in is the real parent
+                s.parents.insert(thread_gc, gc_id);
+                s.thread_obj.insert(header, thread_gc);
+            }
             if allocated > s.peak_allocated {
                 s.peak_allocated = allocated;
             }
@@ -191,7 +208,7 @@ pub fn on_reach(gc_id: u64, header: usize) {
                 return;
             }
             if s.freed.contains(&header) {
-                let from = s.trace_stack.last().cloned();
+                let from = s.trace_stack.last().map(|t| t.0);
                 s.violations.push(format!(
                     "freed-but-reachable: collection of heap {} reached freed object {:#x} (from {:?})",
                     gc_id, header, from
@@ -203,13 +220,49 @@ pub fn on_reach(gc_id: u64, header: usize) {
                 Some(o) => *o,
                 None => return,
             };
-            if let Some(parent) = s.trace_stack.last() {
-                if let Some(parent_owner) = s.owner.get(parent).cloned() {
-                    if !is_ancestor_or_self(&s, child_owner, parent_owner) {
-                        s.violations.push(format!(
-                            "heap-isolation: object in heap {} points into heap {} which is neither it nor one of its ancestors",
-                            parent_owner, child_owner
-                        ));
+            if let Some(&(parent, roots_of)) = s.trace_stack.last() {
+                // The stack and the rooted values of a thread belong to the heap of that thread,
+                // not to the heap the `Thread` object is allocated in
+                let parent_owner = roots_of
+                    .or_else(|| s.thread_obj.get(&parent).cloned())
+                    .or_else(|| s.owner.get(&parent).cloned());
+                if let Some(parent_owner) = parent_owner {
+                    // A collection traces the roots of all descendant threads as part of its own
+                    // roots (`mark_child_roots`), only the visitor attributes them precisely
+                    let descendant_roots = roots_of.is_some()
+                        && !s.walk
+                        && is_ancestor_or_self(&s, parent_owner, child_owner);
+                    if !descendant_roots && !is_ancestor_or_self(&s, child_owner, parent_owner) {
+                        // owners along the path from the roots, as depths in the heap tree
+                        let depth = |gc: u64| {
+                            let (mut d, mut gc) = (0, gc);
+                            while let Some(p) = s.parents.get(&gc) {
+                                d += 1;
+                                gc = *p;
+                            }
+                            d
+                        };
+                        let path: Vec<String> = s
+                            .trace_stack
+                            .iter()
+                            .map(|&(h, r)| match r.or_else(|| s.thread_obj.get(&h).cloned()) {
+                                Some(gc) => format!("roots@depth{}", depth(gc)),
+                                None => match s.owner.get(&h) {
+                                    Some(gc) => format!("obj@depth{}", depth(*gc)),
+                                    None => "obj@?".to_string(),
+                                },
+                            })
+                            .collect();
+                        let message = format!(
+                            "heap-isolation: object in heap {} points into heap {} which is neither it nor one of its ancestors (from path {} -> obj@depth{})",
+                            parent_owner, child_owner, path.join(" -> "), depth(child_owner)
+                        );
+                        let message = if std::env::var_os("GLUON_VERIF_BACKTRACE").is_some() {
+                            format!("{}\n{}", message, std::backtrace::Backtrace::force_capture())
+                        } else {
+                            message
+                        };
+                        s.violations.push(message);
                     }
                 }
             }
@@ -224,7 +277,7 @@ pub fn enter(header: usize) -> TraceGuard {
         .try_with(|s| {
             if let Ok(mut s) = s.try_borrow_mut() {
                 if s.enabled {
-                    s.trace_stack.push(header);
+                    s.trace_stack.push((header, None));
                     return true;
                 }
             }
@@ -244,6 +297,63 @@ impl Drop for TraceGuard {
             });
         }
     }
+}
+
+/// The roots (stack, rooted values) of the thread whose heap is `gc_id` are about to be traced
+pub fn enter_thread(gc_id: u64) -> TraceGuard {
+    let pushed = STATE
+        .try_with(|s| {
+            if let Ok(mut s) = s.try_borrow_mut() {
+                if s.enabled {
+                    s.trace_stack.push((0, Some(gc_id)));
+                    return true;
+                }
+            }
+            false
+        })
+        .unwrap_or(false);
+    TraceGuard(pushed)
+}
+
+/// As `enter_thread` but only if the innermost entry is not already the roots of a thread
+pub fn enter_roots(gc_id: u64) -> TraceGuard {
+    let pushed = STATE
+        .try_with(|s| {
+            if let Ok(mut s) = s.try_borrow_mut() {
+                if s.enabled && s.trace_stack.last().map_or(true, |t| t.1.is_none()) {
+                    s.trace_stack.push((0, Some(gc_id)));
+                    return true;
+                }
+            }
+            false
+        })
+        .unwrap_or(false);
+    TraceGuard(pushed)
+}
+
+/// In visitor mode: `Some(already visited)`, otherwise `None`
+pub fn walk_mark(header: usize) -> Option<bool> {
+    STATE
+        .try_with(|s| {
+            if let Ok(mut s) = s.try_borrow_mut() {
+                if s.enabled && s.walk {
+                    let new = s.walk_visited.insert(header);
+                    if new {
+                        s.walk_objects += 1;
+                    }
+                    return Some(!new);
+                }
+            }
+            None
+        })
+        .unwrap_or(None)
+}
+
+pub fn set_walk(on: bool) {
+    with(|s| {
+        s.walk = on;
+        s.walk_visited.clear();
+    })
 }
 
 pub fn on_instr(frame_len: usize, max_stack_size: usize, abs_len: usize) {
